@@ -899,7 +899,7 @@ class FnEmit:
         """pure single-block SSA values are rendered at their use instead of getting a C local: fewer assignments,
         hence fewer phi merges in CBMC's symbolic execution.  Safe because SSA operands are immutable and, within one
         basic block, the C variables that stand for phi nodes are not reassigned."""
-        s.inl = {}; s.inl_ok = set()
+        s.inl = {}; s.inl_ok = set(); s.blocklocal = {}
         if s.em.opts.no_inline_expr: return
         defs = {}; useblocks = collections.defaultdict(list)
         def vals(I):
@@ -918,6 +918,11 @@ class FnEmit:
                 else:
                     for v in vals(I):
                         if v.kind == 'local': useblocks[v.data].append(bl)
+        s.blocklocal = {}
+        for r, (bl, I) in defs.items():
+            ub = useblocks.get(r, [])
+            if I.op not in ('phi', 'alloca') and all(b == bl for b in ub):
+                s.blocklocal[r] = bl
         for r, (bl, I) in defs.items():
             pure = (I.op == 'bin' and I.bop not in ('udiv', 'sdiv', 'urem', 'srem') and not isinstance(I.ty, FloatTy)) or \
                    I.op in ('icmp', 'cast', 'gep') or (I.op == 'select')
@@ -1018,15 +1023,32 @@ class FnEmit:
         body = []
         f.blocks = s.rpo_blocks()
         s.plan_inlining()
+        # phi lowering: direct assignment on the edge unless a phi of the block reads another phi of the same block (swap problem)
+        s.direct_phi = set()
+        for bl, ins in f.blocks.items():
+            phis = [I for I in ins if I.op == 'phi']
+            names = set(I.res for I in phis)
+            # (only single-phi blocks: with several phis an inlined incoming expression could read a sibling phi that was already updated)
+            if len(phis) == 1:
+                s.direct_phi.add(bl)
         for bl, ins in f.blocks.items():
             lab = bl
             body.append('%s: ;' % s.label(lab))
             # phis at head: assign from __in
             for I in ins:
-                if I.op == 'phi': body.append('  %s = %s__in;' % (s.lname(I.res), s.lname(I.res)))
+                if I.op == 'phi' and bl not in s.direct_phi: body.append('  %s = %s__in;' % (s.lname(I.res), s.lname(I.res)))
+            blk = []
             for I in ins:
                 if I.op == 'phi': continue
-                body += ['  ' + x for x in s.instr(I, bl)]
+                blk += ['  ' + x for x in s.instr(I, bl)]
+            if not s.thread:
+                # values that live only inside this basic block are declared in a C block scope: CBMC kills them at the
+                # closing brace / outgoing goto, so they take no part in later path merges
+                ld = ['  %s %s;' % (em.cty(s.types[n]), s.lname(n)) for n, b in s.blocklocal.items()
+                      if b == bl and n not in s.inl and s.types.get(n) is not None and not isinstance(s.types[n], VoidTy)]
+                body += ['{'] + ld + blk + ['}']
+            else:
+                body += blk
         if s.thread:
             nm = em.fname(f.name)
             fields = []
@@ -1035,7 +1057,7 @@ class FnEmit:
                 fields.append('  %s v_%s;' % (em.cty(t), cid(n)))
             for bl, ins in f.blocks.items():
                 for I in ins:
-                    if I.op == 'phi': fields.append('  %s v_%s__in;' % (em.cty(I.ty), cid(I.res)))
+                    if I.op == 'phi' and bl not in s.direct_phi: fields.append('  %s v_%s__in;' % (em.cty(I.ty), cid(I.res)))
             fields += [d.replace('F->', '') for d in s.decls]
             sw = ' '.join('case %d: goto CS_%d;' % (k, k) for k in range(1, s.ncs + 1))
             return ('struct FR_%s { int pc;\n%s\n};\nstruct FR_%s FRI_%s[VERIF_MAX_INST];\n'
@@ -1047,11 +1069,11 @@ class FnEmit:
         decls = []
         for n, t in s.types.items():
             if any(n == pn for _, pn in f.params): continue
-            if isinstance(t, VoidTy) or t is None or n in s.inl: continue
+            if isinstance(t, VoidTy) or t is None or n in s.inl or n in s.blocklocal: continue
             decls.append('  %s %s;' % (em.cty(t), s.lname(n)))
         for bl, ins in f.blocks.items():
             for I in ins:
-                if I.op == 'phi': decls.append('  %s %s__in;' % (em.cty(I.ty), s.lname(I.res)))
+                if I.op == 'phi' and bl not in s.direct_phi: decls.append('  %s %s__in;' % (em.cty(I.ty), s.lname(I.res)))
         return '%s {\n%s\n%s\n%s\n}' % (hdr, '\n'.join(decls), '\n'.join(s.decls), '\n'.join(body))
     def v(s, x):
         if x.kind == 'local' and x.ty is None: x.ty = s.types[x.data]
@@ -1063,7 +1085,7 @@ class FnEmit:
             if I.op != 'phi': break
             for val, lb in I.inc:
                 if lb == frm or (frm == '%entry__' and lb == s.entry_label):
-                    out.append('%s__in = %s;' % (s.lname(I.res), s.v(val)))
+                    out.append('%s%s = %s;' % (s.lname(I.res), '' if to in s.direct_phi else '__in', s.v(val)))
                     break
             else:
                 raise ValueError('phi %s has no incoming from %s' % (I.res, frm))
